@@ -11,6 +11,7 @@ def confirm(sd):
     sd = os.path.abspath(sd)
     meta = json.load(open(os.path.join(sd, "meta.json")))
     instr = meta["demo_instructions"]
+    instr = re.sub(r"<repo[^>]*>/", "", instr)
     cps = re.findall(r"cp\s+(\S+)\s+([\w/.]+/)", instr)
     m = re.search(r"(go1?\.?2?6?\s*test\s+-vet=off[^;#(\n]*)", instr)
     if not cps or not m:
